@@ -157,6 +157,20 @@ def run(chk: Check, model):
     rule_task_private_state(chk, view, "C02.handoff")
     rule_gates(chk, view, "C02.handoff")
     rule_handoff_topology(chk, view, "C02.handoff")
+    # a lifecycle function that changes the wrapper's state and hands work to its executor publishes the state first: the task reads the state
+    # (push_phase_shift announces output times only when RUNNING), so with the other order what it sees depends on which thread runs first
+    n_pub = 0
+    for key, r_ in view.results.items():
+        fq = view.fi(key).qualname
+        sts = [e for e in r_.events if e.kind == "store_attr" and e.name == "self._state" and e.func == fq]
+        subs = [e for e in r_.events if e.kind == "call" and e.name == "self._submit" and e.func == fq]
+        if not sts or not subs or key.count(".") > 1:
+            continue
+        n_pub += 1
+        late = [e for e in sts if any(sb.idx < e.idx for sb in subs)]
+        chk.add("C02.handoff", f"state published before work is submitted: {key}", not late, f"{key} sets self._state = {T.show(late[0].term)[:60] if late else ''} after it has already "
+                "submitted a task to its own executor", chk.loc(view.fi(key), late[0].node if late else None))
+    chk.floor("C02.handoff", "lifecycle functions that set the state and submit work", n_pub, 2)
     # the value queued for a blocking step is a function of the popped arrival times only
     from .c04 import _max0_of_pops
     from ..asyncrt import one, popped, queue_ops
